@@ -36,7 +36,8 @@ def main():
     meta["suite_passes_with_change"] = suite_ok
     meta["ran"].append("cargo test --offline (demo moved aside): " + ("pass" if suite_ok else "FAIL"))
     # 2. demo fails with, passes without
-    run = ("cargo test --offline --test %s" % name) if kind == "test" else ("timeout 120 cargo run --offline --release --example %s" % name)
+    feat = " --features rayon,serde" if prop in ("C15", "C16") else ""
+    run = ("cargo test --offline%s --test %s" % (feat, name)) if kind == "test" else ("timeout 120 cargo run --offline --release --example %s" % name)
     rc_with, out_with = sh("timeout 600 " + run, cwd=wt)
     sh("git stash push -- src", cwd=wt)
     rc_without, out_without = sh("timeout 600 " + run, cwd=wt)
@@ -55,6 +56,9 @@ def main():
     print("confirmed:", confirmed, "| suite_ok", suite_ok, "| demo with", rc_with, "| demo without", rc_without)
     # 3. run the checks against it
     isolated = "--isolated" in sys.argv
+    if "--no-checks" in sys.argv:
+        json.dump(meta, open(os.path.join(dest, "meta.json"), "w"), indent=1)
+        return
     if confirmed:
         vdir = "/verif"
         env = ""
